@@ -300,12 +300,12 @@ def rule_r7(ctx):
 
 
 def run(ctx):
-    rule_r1(ctx)
-    rule_r2(ctx)
-    rule_r3(ctx)
-    rule_r4(ctx)
-    rule_r7(ctx)
-    c11.rule_ws(ctx)
+    ctx.guard(rule_r1)
+    ctx.guard(rule_r2)
+    ctx.guard(rule_r3)
+    ctx.guard(rule_r4)
+    ctx.guard(rule_r7)
+    ctx.guard(c11.rule_ws)
     for rr in ctx.rules:
         if rr.id == "C11.R7":
             rr.id = "C16.R8"
